@@ -244,8 +244,9 @@ def equality(rep, mf):
     # and read on the next makes `a == b` depend on what was compared before - and an exit that skips the clean-up leaves it
     # behind), and its only verdicts are the recognised ones
     for (meta, name), f in sorted(mf.items()):
-        if name not in ("__eq", "__lt", "__le"):
+        if name not in ("__eq", "__lt", "__le", "__add", "__sub", "__mul", "__div", "__unm"):
             continue
+        arith_ = name in ("__add", "__sub", "__mul", "__div", "__unm")
         locs = set(f["params"])
         for n_ in luaparse.walk(f["body"]):
             if n_.get("k") == "Local":
@@ -255,6 +256,7 @@ def equality(rep, mf):
             elif n_.get("k") == "ForIn":
                 locs.update(n_["names"])
         writes = []
+        writes_global = []
         for n_ in luaparse.walk(f["body"]):
             if n_.get("k") == "Assign":
                 for t in n_["targets"]:
@@ -263,8 +265,20 @@ def equality(rep, mf):
                         base = base["obj"]
                     if not (t.get("k") == "Name" and t.get("name") in locs):
                         writes.append(luaparse.show(t))
+                    if not (base.get("k") == "Name" and base.get("name") in locs):
+                        writes_global.append(luaparse.show(t))
         reads = sorted({luaparse.show(n_) for n_ in luaparse.walk(f["body"]) if n_.get("k") == "Name"
                         and n_.get("name") not in locs and n_.get("name") not in LUA_PURE_GLOBALS})
+        if arith_:
+            # an element-wise operator on tuples re-enters itself for nested tuples: what it builds is its own (a result table
+            # that is a global is the same table in the outer and the inner activation)
+            writes = writes_global
+            rep.ob("ARITH", "%s|%s|writes-only-its-own-locals" % (meta, name), not writes,
+                   "%s.%s builds its result in locals" % (meta, name) if not writes else
+                   "%s.%s writes the global %s: applied to tuples that contain tuples the operator re-enters itself and the inner "
+                   "activation works on the outer one's table - `(3, (1, 2)) * (6, (4, 5))` yields a tuple that contains itself"
+                   % (meta, name, writes), "preamble.lua:%s" % f["line"])
+            continue
         ok = not writes and not reads
         rep.ob("EQ" if name == "__eq" else "ORDER", "%s|%s|function-of-its-operands" % (meta, name), ok,
                "%s.%s reads its two operands only and writes nothing" % (meta, name) if ok else
